@@ -29,6 +29,15 @@ type aliaser interface {
 	Alias(string) string
 }
 
+// absoluteAlias returns an alias for a package used by the generated code itself.
+// Such imports must not be rewritten by aliases defined in meta.imports.
+func absoluteAlias(a aliaser, path string) string {
+	if abs, ok := a.(interface{ AliasAbsolute(string) string }); ok {
+		return abs.AliasAbsolute(path)
+	}
+	return a.Alias(path)
+}
+
 // toExpr removes surrounding delimiters
 func toExpr(expr string) (string, bool) {
 	runes := []rune(expr)
